@@ -10,7 +10,7 @@
     (value, sequence) order) and [merges] are their specifications. *)
 From Coq Require Import List Bool Arith Lia PeanoNat NArith Sorting.Sorted Sorting.Permutation.
 From TLXV Require Import Common.Order C06.PMS C06.MergeLemmas C06.Layout C06.Cuts C06.PMSProofs C06.SplitSpec
-     C06.Top C06.Ledger C06.Sched C06.Schedule.
+     C06.Top C06.Ledger C06.Sched C06.Schedule C06.Instances.
 Import ListNotations.
 
 (** parallel_mergesort: for every strict weak order, every input (n >= 0), every thread count >= 1
@@ -174,3 +174,45 @@ Theorem C06_extracted_model_correct :
     res_ok (pms_ref rev sampling os p input) = true.
 Proof. exact pms_ref_correct. Qed.
 Print Assumptions C06_extracted_model_correct.
+
+(** * Closed versions over the proved models of the other properties
+
+    [partition_c08] = the C08 model of multisequence_partition ([MSP.partition], padding / sample sort / halving
+    loop / both priority-queue corrections, repaired tie rule; theorem C08_partition_correct), offsets read back as
+    nat; [mmerge_c05 stable] = the C05 model of multiway_merge_base<stable, false> ([Model.mwm_base]: k switch,
+    merge_advance, generated 3/4-way automata, loser-tree merges over the reference tournament) with the default
+    algorithm MWMA_LOSER_TREE_COMBINED, run to full length (theorem C05 Final.ref_mwm_run).  No hypothesis about
+    the partition or the merge is left; the local sort and the sample sort remain std::sort / std::stable_sort by
+    specification.  Both splitting strategies. *)
+
+(** the two adapters: C05's step-wise stable merge is the fold of binary stable merges used in C06, on every
+    input; the C05 model run to full length returns it; the C08 model meets [partitions]. *)
+Theorem C06_c05_c08_adapters :
+  forall (A : Type) (ltb : A -> A -> bool), SWO ltb ->
+    (forall st : list (list A), StableMerge.gmerge ltb st = smerge ltb st) /\
+    (forall seqs, Forall (SS ltb) seqs -> mmerge_c05 ltb true seqs = smerge ltb seqs) /\
+    (forall stable, merges ltb (mmerge_c05 ltb stable)) /\
+    partitions ltb (partition_c08 ltb).
+Proof.
+  intros A ltb H. split; [exact (gmerge_is_smerge ltb H)|]. split; [exact (mmerge_c05_stable ltb H)|].
+  split; [exact (mmerge_c05_merges ltb H)|exact (partition_c08_spec ltb H)].
+Qed.
+Print Assumptions C06_c05_c08_adapters.
+
+Theorem C06_parallel_mergesort_sorted_permutation_closed :
+  forall (A : Type) (ltb : A -> A -> bool), SWO ltb ->
+  forall lsort ssort (d : A), sorts ltb lsort -> sorts ltb ssort ->
+  forall (stable sampling : bool) (os p : nat) (input : list A), 1 <= os -> 1 <= p ->
+    let r := pms ltb lsort ssort (partition_c08 ltb) (mmerge_c05 ltb stable) d sampling os p input in
+    Permutation (res_array r) input /\ SS ltb (res_array r) /\ res_ok r = true.
+Proof. exact @pms_c08_c05_sorted_permutation. Qed.
+Print Assumptions C06_parallel_mergesort_sorted_permutation_closed.
+
+Theorem C06_stable_parallel_mergesort_is_stable_sort_closed :
+  forall (A : Type) (ltb : A -> A -> bool), SWO ltb ->
+  forall lsort ssort (d : A), sorts ltb lsort -> sorts ltb ssort ->
+  forall (sampling : bool) (os p : nat) (input : list A), 1 <= os -> 1 <= p ->
+    (forall l, lsort l = stable_sort ltb l) ->
+    res_array (pms ltb lsort ssort (partition_c08 ltb) (mmerge_c05 ltb true) d sampling os p input) = stable_sort ltb input.
+Proof. exact @pms_c08_c05_stable. Qed.
+Print Assumptions C06_stable_parallel_mergesort_is_stable_sort_closed.
